@@ -169,6 +169,9 @@ def parseOp (ws : List String) : Option Op :=
   | ["into_iter", r, it] => some (.into_iter r it)
   | ["next", it] => some (.next it)
   | ["next_back", it] => some (.next_back it)
+  | ["nth", it, k] => k.toNat?.map (.nth it)
+  | ["nth_back", it, k] => k.toNat?.map (.nth_back it)
+  | ["count", it] => some (.count it)
   | ["size_hint", it] => some (.size_hint it)
   | ["len", it] => some (.len it)
   | ["as_slice", it] => some (.as_slice it)
@@ -300,7 +303,7 @@ def runOp (cs : Case) (line : String) : IO Case := do
       IO.println "= bad-op"; printState cs.w; return cs
     let n0 := cs.w.sys.tr.length
     let cb0 := cs.w.sys.cbIdx
-    let (w', out) := step cs.X cs.w op
+    let (w', out) := stepAll cs.X cs.w op
     let evs := w'.sys.tr.drop n0
     let injected := anyInRange cs.X.o.panicAt cb0 w'.sys.cbIdx
     printEvents evs (!injected)
